@@ -91,6 +91,9 @@ def case_strategy(draw):
         'align': draw(st.sampled_from([None, None, 0, 0, 1, -1])),
         # directory storage: a file for this instance UID is already there (stored by an earlier server run)
         'preexisting': draw(st.booleans()),
+        # file source: every copy is written to the SAME path (replaced in place, same size, same modification
+        # time) and is a different instance - what a sender sees when files are staged under a fixed name
+        'reuse_path': draw(st.sampled_from([False, False, True])),
     }
 
 
@@ -139,6 +142,8 @@ def run_case(case):
         for k in range(case['repeat']):
             ds = build_ds(case['ds'])
             ds.SeriesDescription = 'copy %d' % k          # same instance UID, different content
+            if case.get('reuse_path') and len(str(ds.SOPInstanceUID)) <= 61:
+                ds.SOPInstanceUID = '%s.%d' % (ds.SOPInstanceUID, k + 1)      # ... or distinct instances
             if case.get('align') is not None:
                 from ..dimsegen import patterned
                 ds.EncapsulatedDocument = b''
@@ -160,7 +165,7 @@ def run_case(case):
                     service = assoc.get_scu(sop)
                     for k, ds in enumerate(sent):
                         if case['source'] == 'file':
-                            path = os.path.join(tmp, 'src_%d.dcm' % k)
+                            path = os.path.join(tmp, 'src_%d.dcm' % (0 if case.get('reuse_path') else k))
                             fm = pydicom.dataset.FileMetaDataset()
                             fm.MediaStorageSOPClassUID = sop
                             fm.MediaStorageSOPInstanceUID = ds.SOPInstanceUID
@@ -169,6 +174,8 @@ def run_case(case):
                             fds.is_implicit_VR = ts == svc.IMPLICIT
                             fds.is_little_endian = ts != svc.BIG
                             fds.save_as(path, write_like_original=False)
+                            if case.get('reuse_path'):
+                                os.utime(path, (1600000000, 1600000000))
                             arg = path
                         else:
                             arg = ds
@@ -244,6 +251,11 @@ FIXED = [
     {'ds': {'SOPClassUID': svc.SC_STORAGE, 'SOPInstanceUID': '1.2.826.0.1.3680043.9.15.3', 'StudyDescription': 'x'},
      'ts': 1, 'client_max': 1024, 'server_max': 4096, 'source': 'file', 'reception': 'memory-file',
      'outcome': ['status', 0xB000], 'repeat': 2, 'align': 0},
+    # three different instances staged one after the other under one file name
+    {'ds': {'SOPClassUID': svc.SC_STORAGE, 'SOPInstanceUID': '1.2.826.0.1.3680043.9.15.6', 'PatientName': 'Same^Path',
+            'EncapsulatedDocument': {'len': 700, 'salt': 8}},
+     'ts': 1, 'client_max': 4096, 'server_max': 4096, 'source': 'file', 'reception': 'directory',
+     'outcome': ['status', 0], 'repeat': 3, 'align': None, 'reuse_path': True},
     # PDUs far larger than what one TCP read delivers on loopback
     {'ds': {'SOPClassUID': svc.CT_STORAGE, 'SOPInstanceUID': '1.2.826.0.1.3680043.9.15.4', 'PatientName': 'Big^Pdu',
             'EncapsulatedDocument': {'len': 1500001, 'salt': 5}},
@@ -276,7 +288,7 @@ def one(ctx, case, label):
         if again:
             return
     ctx.case(case, nfrag >= 2 or case['repeat'] > 1 or case.get('align') is not None,
-             labels=[label, 'ts=%d' % case['ts'], 'src=' + case['source'], 'recv=' + case['reception'], 'align=%s' % case.get('align'),
+             labels=[label, 'ts=%d' % case['ts'], 'src=' + case['source'] + ('-same-path' if case.get('reuse_path') and case['source'] == 'file' and case['repeat'] > 1 else ''), 'recv=' + case['reception'], 'align=%s' % case.get('align'),
                      'repeat=%d' % case['repeat'], 'multi-fragment' if nfrag >= 2 else 'small'],
              sample={k: (v if k != 'ds' else {kk: (vv if not isinstance(vv, list) else '<%d items>' % len(vv))
                                                 for kk, vv in v.items()}) for k, v in case.items()})
